@@ -33,6 +33,7 @@ type signRec struct {
 
 // monitor holds the oracles of the consensus-network simulation.
 type monitor struct {
+	propBlocks map[string]*types.Block // "h/r" -> complete proposal block some node held in that round
 	inCommit map[int]int64 // node -> incarnation<<40|height while it sits in the commit step
 	s  *sim
 	mu sync.Mutex // onSigned is called from node goroutines (several at once in real-ticker mode)
@@ -386,6 +387,12 @@ func (m *monitor) afterStep() {
 			}
 			m.checkReplica(n)
 			m.checkAssembled(n, rs)
+			if rs.ProposalBlock != nil && rs.Proposal != nil && rs.ProposalBlock.HashesTo(rs.Proposal.BlockID.Hash) {
+				if m.propBlocks == nil {
+					m.propBlocks = map[string]*types.Block{}
+				}
+				m.propBlocks[fmt.Sprintf("%d/%d", rs.Height, rs.Proposal.Round)] = rs.ProposalBlock
+			}
 			ck := int64(n.inc)<<40 | rs.Height
 			if rs.Step == cstypes.RoundStepCommit {
 				if m.inCommit == nil {
@@ -448,6 +455,25 @@ func (m *monitor) judgeRejections(n *simNode) {
 					if p.evReplayed && strings.Contains(rj.err, "evidence was already committed") {
 						// known finding (consequence of C11 committed-still-pending-after-apply-crash)
 						sig = "correct-proposal-rejected-committed-evidence-after-apply-crash"
+					}
+					if strings.Contains(rj.err, "not greater than last block time") {
+						// known finding (WeightedMedian selects the entry below the middle of an odd-sized
+						// multiset): only when the spec's median of the very commit in the refused block
+						// would have been later than the previous block
+						blk := m.propBlocks[fmt.Sprintf("%d/%d", rj.h, rj.r)]
+						for _, q := range m.s.nodes {
+							if blk == nil || blk.LastCommit == nil || !q.isAlive() {
+								continue
+							}
+							st := q.cs.GetState()
+							if st.LastBlockHeight != rj.h-1 {
+								continue
+							}
+							if mt, below, ok := refMedianTime(blk.LastCommit, st.LastValidators); ok && below.Equal(blk.Time) && !mt.Equal(below) && mt.After(st.LastBlockTime) {
+								sig = "correct-proposal-rejected:block-time-median-below-middle"
+							}
+							break
+						}
 					}
 					e.Fail("C06", sig, "node %d refused (prevoted nil for) the block that the correct validator %d proposed at height %d round %d: %s", n.idx, p.idx, rj.h, rj.r, rj.err)
 				}
